@@ -80,7 +80,8 @@ impl Body for ScriptBody {
 struct CountWake(AtomicUsize);
 impl std::task::Wake for CountWake { fn wake(self: Arc<Self>) { self.0.fetch_add(1, Ordering::SeqCst); } fn wake_by_ref(self: &Arc<Self>) { self.0.fetch_add(1, Ordering::SeqCst); } }
 
-fn lim(v: &Value) -> Option<usize> { let n = v.as_i64().unwrap_or(-1); if n < 0 { None } else { Some(n as usize) } }
+/// -1 = not configured; -2, -3, -4 = limits beyond the 32-bit length prefix (2^32, 2^32 + 16, usize::MAX): larger than any message
+fn lim(v: &Value) -> Option<usize> { match v.as_i64().unwrap_or(-1) { -2 => Some(1usize << 32), -3 => Some((1usize << 32) + 16), -4 => Some(usize::MAX), n if n < 0 => None, n => Some(n as usize) } }
 
 fn pmsg(v: &Value) -> TestMsg {
     TestMsg { a: v["a"].as_u64().unwrap_or(0) as u32, b: json_bytes(&v["b"]), c: String::from_utf8_lossy(&json_bytes(&v["c"])).into_owned() }
@@ -144,7 +145,9 @@ fn encode(stim: &Value, ev: &mut Vec<Value>) -> (Vec<u8>, Option<http::HeaderMap
     let limit = lim(&stim["limit_enc"]);
     let server = stim["role"].as_str().unwrap_or("server") == "server";
     let n_items = stim["items"].as_array().map(|a| a.len()).unwrap_or(0);
-    let max_polls = n_items * 2 + 12;
+    // the statement does not say in how many DATA chunks the encoder hands out its output: the budget allows one poll per byte
+    let n_bytes: usize = stim["items"].as_array().map(|a| a.iter().map(|it| it["b"].as_array().map(|b| b.len()).unwrap_or(0) + 16).sum()).unwrap_or(0);
+    let max_polls = n_items * 2 + 12 + n_bytes * 2;
     let ((wire, tr), after) = if stim["codec"].as_str() == Some("prost") {
         let (src, c) = build_source(&stim["items"], |it| Some(pmsg(it)));
         let mut codec = ProstCodec::<TestMsg, TestMsg>::default();
@@ -253,9 +256,46 @@ fn make_body(stim: &Value, wire: &[u8], enc_trailers: Option<http::HeaderMap>, e
     (ScriptBody { items: q, polls_after_end: c.clone(), ended: false, fused: false }, c)
 }
 
+/// A data frame made of several non-contiguous segments (the client layer is generic over the transport's `Buf`: chained or
+/// ring buffers are legal): `chunk()` is only the first segment.
+pub struct SegBuf(std::collections::VecDeque<Bytes>);
+impl SegBuf {
+    pub fn split(mut b: Bytes, seg: usize) -> SegBuf {
+        let mut q = std::collections::VecDeque::new();
+        if seg == 0 { q.push_back(b); return SegBuf(q); }
+        while b.len() > seg { q.push_back(b.split_to(seg)); }
+        q.push_back(b);
+        SegBuf(q)
+    }
+}
+impl bytes::Buf for SegBuf {
+    fn remaining(&self) -> usize { self.0.iter().map(|b| b.len()).sum() }
+    fn chunk(&self) -> &[u8] { self.0.front().map(|b| &b[..]).unwrap_or(&[]) }
+    fn advance(&mut self, mut cnt: usize) {
+        while cnt > 0 {
+            let n = self.0.front().map(|b| b.len()).expect("advance past the end");
+            if cnt >= n { self.0.pop_front(); cnt -= n; } else { bytes::Buf::advance(self.0.front_mut().unwrap(), cnt); cnt = 0; }
+        }
+        while self.0.front().map(|b| b.is_empty()).unwrap_or(false) && self.0.len() > 1 { self.0.pop_front(); }
+    }
+}
+/// Hands every DATA frame of the inner body on as a segmented buffer (stim.seg bytes per segment, 0 = contiguous).
+pub struct SegBody<B> { pub inner: B, pub seg: usize }
+impl<B: Body<Data = Bytes, Error = Status> + Unpin> Body for SegBody<B> {
+    type Data = SegBuf; type Error = Status;
+    fn poll_frame(mut self: Pin<&mut Self>, cx: &mut Context<'_>) -> Poll<Option<Result<http_body::Frame<SegBuf>, Status>>> {
+        let seg = self.seg;
+        Pin::new(&mut self.inner).poll_frame(cx).map(|o| o.map(|r| r.map(|f| f.map_data(|d| SegBuf::split(d, seg)))))
+    }
+    fn is_end_stream(&self) -> bool { self.inner.is_end_stream() }
+    fn size_hint(&self) -> http_body::SizeHint { self.inner.size_hint() }
+}
+
 fn decode(stim: &Value, wire: &[u8], dec_enc: Option<CompressionEncoding>, enc_trailers: Option<http::HeaderMap>, ev: &mut Vec<Value>) {
     let limit = lim(&stim["limit_dec"]);
     let (body, after) = make_body(stim, wire, enc_trailers, ev);
+    // the decoder is generic over the transport's Buf: DATA frames arrive contiguous or cut into segments of 1..4 bytes
+    let body = SegBody { inner: body, seg: stim["seg"].as_u64().map(|x| x as usize).unwrap_or(wire.len() % 5) };
     let extra = stim["extra_polls"].as_u64().unwrap_or(3) as usize;
     let max_polls = wire.len() * 2 + 200;
     // the decoder plays the opposite role of the encoder
@@ -515,6 +555,17 @@ pub fn gen_limits(seed: u64, tier: &str) -> Vec<Value> {
                                 "body_pend":[],"tail": if role=="server" {"enc"} else {"none"},"tail_at":0,"extra_polls":3}));
                         }
                     }
+                }
+            }
+        }
+        // limits beyond what the 4-byte length prefix can express: nothing is ever over them
+        for &l in &[-2i64, -3, -4] {
+            for role in ["server", "client"] {
+                for enc in ["identity", "gzip"] {
+                    let items: Vec<Value> = (0..3).map(|_| { let n = [0usize, 5, 17, 40][rng.gen_range(0..4)]; json!({"k":"msg","b":bytes_json(&rand_bytes(&mut rng, n, false))}) }).collect();
+                    out.push(json!({"kind":"rt","class":"huge_limits","role":role,"enc":enc,"override":false,"codec":"raw",
+                        "bufsz":64,"yield":32768,"limit_enc":l,"limit_dec":l,"items":items,"cuts":rand_cuts(&mut rng),
+                        "body_pend":[],"tail": if role=="server" {"enc"} else {"none"},"tail_at":0,"extra_polls":3}));
                 }
             }
         }
